@@ -713,3 +713,47 @@ func c09WindowLifetimeCoversInterval(c *an.Ctx, rule string) {
 		"the lifetime is computed from "+strings.Join(got, ", "),
 		"the lifetime of the request windows is computed from ["+strings.Join(got, ", ")+"] only: with a backoff period shorter than a counting interval a subnet that pauses for longer than the period starts with an empty window, and more than the configured number of queries is answered within one interval")
 }
+
+// c17PackedBytesAreSent: dns.Msg.PackBuffer packs into the given buffer only
+// when the buffer is longer than the message by at least one byte; otherwise it
+// allocates and returns a new slice.  packReq sends from the pooled buffer, so
+// the slice PackBuffer returned must not be discarded: it is copied into the
+// buffer (a no-op when it is the buffer).  A query exactly as long as the buffer
+// would otherwise go out as whatever the pooled buffer held before.
+func c17PackedBytesAreSent(c *an.Ctx, rule string) (sites int) {
+	k := "dnsserver/forward.(*UpstreamPlain).packReq"
+	fn := c.Fn(k)
+	if fn == nil {
+		c.Und(rule, k, token.NoPos, "anchor not found")
+		return 0
+	}
+	c.Analysed(k)
+	for _, call := range an.Calls(fn) {
+		if an.CalleeName(call) != "(*github.com/miekg/dns.Msg).PackBuffer" {
+			continue
+		}
+		sites++
+		key := fmt.Sprintf("%s PackBuffer #%d: the returned bytes are the ones in the send buffer", k, sites)
+		v, ok := call.(*ssa.Call)
+		copied := false
+		if ok {
+			for _, ref := range *v.Referrers() {
+				ex, isEx := ref.(*ssa.Extract)
+				if !isEx || ex.Index != 0 {
+					continue
+				}
+				for _, r2 := range *ex.Referrers() {
+					if cc, isCall := r2.(*ssa.Call); isCall {
+						if b, isB := cc.Call.Value.(*ssa.Builtin); isB && b.Name() == "copy" && len(cc.Call.Args) == 2 && cc.Call.Args[1] == ssa.Value(ex) {
+							copied = true
+						}
+					}
+				}
+			}
+		}
+		c.Check(copied, rule, key, call.Pos(),
+			"the slice returned by PackBuffer is copied into the buffer",
+			"the slice returned by PackBuffer is discarded: for a query exactly as long as the buffer (PackBuffer needs one byte more and allocates) the pooled buffer's previous contents, another query or reply, are sent to the upstream and the query goes unanswered by a healthy upstream")
+	}
+	return sites
+}
